@@ -500,7 +500,17 @@ func checkC13(p *Prog, r *Result, tier string) {
 			return
 		}
 		ok := false
-		for _, lp := range naturalLoops(fn) {
+		var loops []natLoop
+		loops = append(loops, naturalLoops(fn)...)
+		if len(loops) == 0 {
+			// the loop was moved into a helper (constructor of the iterator, collector helper)
+			for _, g := range calleesWithin(p, fn, 1) {
+				if g != fn && (g.Signature.Recv() == nil || recvIs(g, a.Iterator) || recvIs(g, a.Search)) {
+					loops = append(loops, naturalLoops(g)...)
+				}
+			}
+		}
+		for _, lp := range loops {
 			for _, b := range lp.blocks {
 				for _, in := range b.Instrs {
 					call, isC := in.(*ssa.Call)
@@ -619,7 +629,13 @@ func checkC13(p *Prog, r *Result, tier string) {
 				for _, st := range storesTo(b, fi) {
 					if bo, ok := st.Val.(*ssa.BinOp); ok && bo.Op == token.SUB {
 						if call, ok := bo.X.(*ssa.Call); ok {
+							isLen := false
 							if bi, ok := call.Call.Value.(*ssa.Builtin); ok && bi.Name() == "len" {
+								isLen = true
+							} else if g := call.Call.StaticCallee(); g != nil && recvIs(g, itn) && g.Signature.Params().Len() == 0 && returnsLenOfList(g) {
+								isLen = true // it.len()
+							}
+							if isLen {
 								if c, ok := bo.Y.(*ssa.Const); ok && c.Value != nil && c.Value.String() == "1" {
 									cur = true
 								}
@@ -699,12 +715,16 @@ func checkC13(p *Prog, r *Result, tier string) {
 				} else if apps > 0 && decs != apps {
 					paired = false
 				}
-				if ifi, ok := b.Instrs[len(b.Instrs)-1].(*ssa.If); ok {
-					if bo, ok := ifi.Cond.(*ssa.BinOp); ok && bo.Op == token.GTR {
-						if _, ff, _ := loadedField(bo.X); ff == a.SearchLimit {
-							if c, ok := bo.Y.(*ssa.Const); ok && c.Value != nil && c.Value.String() == "0" {
-								guard = true
-							}
+				// the limit is compared with 0 somewhere in the loop: `limit > 0` / `limit != 0` to go on, or
+				// `limit == 0` to stop (the limit is unsigned); the comparison may be an operand of a && / ||
+				for _, li := range b.Instrs {
+					bo, ok := li.(*ssa.BinOp)
+					if !ok || (bo.Op != token.GTR && bo.Op != token.EQL && bo.Op != token.NEQ) {
+						continue
+					}
+					if _, ff, _ := loadedField(bo.X); ff == a.SearchLimit {
+						if c, ok := bo.Y.(*ssa.Const); ok && c.Value != nil && c.Value.String() == "0" {
+							guard = true
 						}
 					}
 				}
@@ -743,7 +763,14 @@ func checkC13(p *Prog, r *Result, tier string) {
 							if _, isAlloc := base.(*ssa.Alloc); isAlloc {
 								continue // composite literal in a constructor
 							}
-							if allowed[FuncName(fn)] {
+							// a function that fills an iterator it has just obtained from the constructor (and returns it)
+							fresh := false
+							if c0, ok := base.(*ssa.Call); ok {
+								if g := c0.Call.StaticCallee(); g != nil && g.Signature.Results().Len() >= 1 && named(g.Signature.Results().At(0).Type()) == itn && g.Signature.Recv() == nil {
+									fresh = true
+								}
+							}
+							if allowed[FuncName(fn)] || fresh {
 								r.Report("C13.R3", FuncName(fn), "iterator element list written by constructor/filler only", Discharged, "", p.Pos(in.Pos()), nil, true)
 							} else {
 								r.Report("C13.R3", FuncName(fn), "iterator element list written by constructor/filler only", Violated, "the iterator's element list is modified after it was filled: truncating it before the order is chosen makes Reverse+Limit return the wrong end of the result", p.Pos(in.Pos()), nil, true)
@@ -1259,4 +1286,24 @@ func checkNotEqualOrder(p *Prog, r *Result, rule string) {
 	default:
 		r.Report(rule, FuncName(f), "head segment placed before tail segment", Violated, "the '!=' range function appends the entries behind the equal range (smaller values) before the ones in front of it (greater values): the matches are right but their order is not the index order, so Collect / Reverse / Limit / One on a search ending with '!=' return the wrong order or the wrong elements", p.Pos(tail.at.Pos()), nil, true)
 	}
+}
+
+// returnsLenOfList: the method returns len() of a slice field of its receiver.
+func returnsLenOfList(g *ssa.Function) bool {
+	for _, b := range g.Blocks {
+		for _, in := range b.Instrs {
+			ret, ok := in.(*ssa.Return)
+			if !ok || len(ret.Results) != 1 {
+				continue
+			}
+			if call, ok := ret.Results[0].(*ssa.Call); ok {
+				if bi, ok := call.Call.Value.(*ssa.Builtin); ok && bi.Name() == "len" {
+					if n, _, _ := loadedField(call.Call.Args[0]); n != nil {
+						return true
+					}
+				}
+			}
+		}
+	}
+	return false
 }
